@@ -285,13 +285,14 @@ pub enum ScanItem {
 
 struct StorageResolver<'a, B, OC, SC, L> {
     storage: &'a Storage<B, OC, SC, L>,
-    chain: Mutex<Vec<PlainRef>>,
+    // the objects being loaded, innermost last: one stack per thread using this resolver
+    chain: Mutex<HashMap<std::thread::ThreadId, Vec<PlainRef>>>,
 }
 impl<'a, B, OC, SC, L> StorageResolver<'a, B, OC, SC, L> {
     pub fn new(storage: &'a Storage<B, OC, SC, L>) -> Self {
         StorageResolver {
             storage,
-            chain: Mutex::new(vec![])
+            chain: Mutex::new(HashMap::new())
         }
     }
 }
@@ -361,7 +362,8 @@ where
         verif_hook::yield_point(verif_hook::Point::Enter, key);
         {
             debug!("get {key:?} as {}", std::any::type_name::<T>());
-            let mut chain = self.chain.lock().unwrap();
+            let mut chains = self.chain.lock().unwrap();
+            let chain = chains.entry(std::thread::current().id()).or_default();
             if chain.contains(&key) {
                 bail!("Recursive reference");
             }
@@ -370,8 +372,13 @@ where
         let _defer = Defer(|| {
             #[cfg(pdf_rs_pdf_verif)]
             verif_hook::yield_point(verif_hook::Point::BeforePop, key);
-            let mut chain = self.chain.lock().unwrap();
+            let mut chains = self.chain.lock().unwrap();
+            let thread = std::thread::current().id();
+            let chain = chains.entry(thread).or_default();
             assert_eq!(chain.pop(), Some(key));
+            if chain.is_empty() {
+                chains.remove(&thread);
+            }
         });
         #[cfg(pdf_rs_pdf_verif)]
         verif_hook::yield_point(verif_hook::Point::AfterPush, key);
